@@ -17,6 +17,7 @@ CHECKS["C13"] = {
     "runs": [
         {"variant": "asan", "engine": "off", "mode": "exhaustive", "procs": 1, "rounds": 1},
         {"variant": "asan", "engine": "off", "mode": "stdalloc", "procs": 2, "rounds_quick": 5000, "rounds_thorough": 50000},
+        {"variant": "asan", "engine": "off", "mode": "composite", "procs": 2, "rounds_quick": 3000, "rounds_thorough": 30000},
         {"variant": "asan", "engine": "off", "mode": "seq", "procs": 4, "rounds_quick": 6000, "rounds_thorough": 60000},
         {"variant": "asan", "engine": "serial", "mode": "conc", "procs_quick": 4, "procs_thorough": 8, "rounds_quick": 1500, "rounds_thorough": 15000},
         {"variant": "asan", "engine": "stress", "mode": "conc", "procs_quick": 4, "procs_thorough": 8, "rounds_quick": 1500, "rounds_thorough": 15000},
